@@ -98,7 +98,7 @@ def run(ctx):
                 dst = t.get("d")
                 dst_ty = bx.locals[dst[0]][0] if dst and isinstance(dst[0], int) and dst[0] < len(bx.locals) else ""
                 if re.search(SETS, (t.get("ga") or "") + " " + str(dst_ty)):
-                    offenders.append((name, t["f"].rsplit("::", 1)[1], f.loc()))
+                    offenders.append((name, t["f"].rsplit("::", 1)[-1], f.loc()))
     ctx.floor("canonical-collections|detector-alive (set/map collects anywhere in the fact db)", alive, 20)
     ctx.ob("canonical-collections|no-dedup-collect-in-prepare", not offenders,
            "no prepare impl collects into a set/map" if not offenders else f"prepare code builds a set/map by a silently de-duplicating call: {[(n.split('::')[-3:], k) for n, k, _ in offenders][:3]}",
